@@ -423,6 +423,12 @@ class Interp:
         s = s.strip()
         if s.startswith('copy '):
             g = self.c_place_get(parse_place(s[5:]))
+            # a field whose annotated type is a pointer: the pointer is copied, never the pointee (Box/NonNull/Unique are transparent here)
+            if re.match(r'^copy \(.*: (&|\*const |\*mut |std::ptr::NonNull<|std::ptr::Unique<|std::boxed::Box<|std::sync::Arc<|std::rc::Rc<)[^()]*\)$', s):
+                return g
+            mm = re.match(r'^copy _(\d+)$', s)
+            if mm and fn is not None and re.match(r'^(std::boxed::)?Box<', (fn.local_tys.get(int(mm.group(1))) or '') if isinstance(fn.local_tys, dict) else ''):
+                return g
             def op(ctx, fr):
                 v = g(ctx, fr)
                 return copy_value(v) if isinstance(v, (Agg, list)) else v
@@ -637,6 +643,9 @@ class Interp:
     # ------------------------------------------------------------------ compile: rvalues
     def c_rvalue(self, s, fn):
         s = s.strip()
+        if s.startswith('no_retag copy '):
+            # the pointer of a Box is duplicated to dereference it (Box<T> is transparent here): same object, no copy
+            return self.c_place_get(parse_place(s[14:]))
         if s.startswith('no_retag '): s = s[9:]
         if s.startswith('&'):
             rest = s[1:]
@@ -1176,7 +1185,8 @@ class Interp:
                 if ctx.steps > ctx.step_limit: raise StepLimit('step limit')
         except (Unsupported, Panic) as e:
             if not getattr(e, 'located', False):
-                e.args = (f'{e.args[0]} [in {hk} bb{bb}]',); e.located = True
+                e.args = (f'{e.args[0]} [in {hk} bb{bb}]',); e.located = True; e.stack = []
+            if len(e.stack) < 40: e.stack.append(f'{fn.name.split("::")[-1] if "::<impl at" not in fn.name else fn.name.split("/")[-1]} bb{bb}')
             raise
         finally:
             ctx.depth -= 1
